@@ -43,6 +43,10 @@ var ctSources = []ect.Source{
 	{Pkg: "primitives/sr25519", Func: "GenerateSecretKey", Why: "bytes read from rng"},
 	{Pkg: "primitives/sr25519", Func: "GenerateKeyPair", Why: "bytes read from rng"},
 	{Pkg: "primitives/sr25519", Func: "(*KeyPair).Sign", Paths: map[int][][]string{0: {{"sk", "*", "key", "*"}, {"sk", "*", "nonce"}}}, Why: "secret scalar, nonce seed, entropy"},
+	// --- secret-key equality tests (documented constant-time) ---------------
+	{Pkg: "primitives/sr25519", Func: "(*SecretKey).Equal", Paths: map[int][][]string{0: {{"key", "*"}, {"nonce"}}, 1: {{"key", "*"}, {"nonce"}}}, Why: "both secret keys"},
+	{Pkg: "primitives/sr25519", Func: "(*MiniSecretKey).Equal", Content: []int{0, 1}, Why: "both mini secret keys"},
+	{Pkg: "primitives/ed25519", Func: "PrivateKey.Equal", Content: []int{0, 1}, Why: "both private keys"},
 	// --- constant-time point multiplication ------------------------------
 	{Pkg: "curve", Func: "(*EdwardsPoint).Mul", Content: []int{1, 2}, Why: "point and scalar"},
 	{Pkg: "curve", Func: "(*EdwardsPoint).MulBasepoint", Content: []int{2}, Why: "scalar"},
